@@ -216,6 +216,8 @@ impl super::DebugSession {
         self.terminated = false;
         self.exit_code = None;
         self.session_mode = Some(SessionMode::Launch);
+        // threads of a previously launched debugee do not belong to the new one
+        self.thread_cache.clear();
 
         let progress_id = self.enqueue_progress_start(
             "Launching debuggee",
